@@ -13,7 +13,8 @@ MODULE = 'Props.C18'
 THEOREMS = ['Vakt.C18.gated_and_ordered', 'Vakt.C18.version_never_past_failed', 'Vakt.C18.resume',
             'Vakt.C18.idempotent', 'Vakt.C18.completes', 'Vakt.C18.shipped_orders_ok',
             'Vakt.C18.up_down_restores', 'Vakt.C18.up_down_restores_version',
-            'Vakt.Migration.loop_resume', 'Vakt.Migration.loop_trace']
+            'Vakt.Migration.loop_resume', 'Vakt.Migration.loop_trace',
+            'Vakt.C18.probes_ok']
 FLOOR = {'quick': 1000, 'thorough': 20000}
 ASSUMPTIONS = ['step bodies are idempotent and either complete or have no effect (the recording set, create_all / '
                'drop_all, create_index behave so); a body that fails half-way is outside the model',
